@@ -78,6 +78,8 @@ def main():
         by_cfg = {}
         for s in kspecs:
             by_cfg.setdefault(s["config"], []).append(s)
+        # build every configuration first, then run all harnesses of the property in one pool
+        all_metas, all_run, workdir = {}, {}, None
         for cfg, ss in sorted(by_cfg.items()):
             sc = kani.Scratch(cfg)
             scratches.append(sc)
@@ -85,27 +87,37 @@ def main():
                 inj = {}
                 for s in ss:
                     inj[s["file"]] = os.path.join(VERIF, "harness", s["harness_file"])
-                sc.prepare(inj)
+                rew = []
+                for s in ss:
+                    for r in s.get("rewrites", []):
+                        if r not in rew:
+                            rew.append(r)
+                sc.prepare(inj, rewrites=rew)
                 names = [s["name"] for s in ss]
                 kani.log("config %s: compiling %d harnesses" % (cfg, len(names)))
                 metas, bs = kani.kani_codegen(sc, names)
                 build_s[cfg] = round(bs, 1)
                 kani.log("config %s: built in %.0fs" % (cfg, bs))
-                rs = kani.run_all(metas, {s["name"]: dict(unwind=s.get("unwind"), cap_s=int(s.get("cap_s", 240) * a.cap_scale),
-                                                          mem_gb=s.get("mem_gb", 10), extra_cbmc=s.get("extra_cbmc", ()),
-                                                          unwindset=s.get("unwindset"))
-                                          for s in ss}, os.path.join(sc.dir, "work"), a.jobs)
+                workdir = workdir or os.path.join(sc.dir, "work")
                 for s in ss:
-                    r = rs[s["name"]]
-                    r["role"] = s.get("role", s["name"])
-                    r["config"] = cfg
-                    results[s["name"]] = r
+                    all_metas[s["name"]] = metas[s["name"]]
+                    all_run[s["name"]] = dict(unwind=s.get("unwind"), cap_s=int(s.get("cap_s", 240) * a.cap_scale),
+                                              mem_gb=s.get("mem_gb", 10), extra_cbmc=s.get("extra_cbmc", ()),
+                                              unwindset=s.get("unwindset"))
             except kani.Inconclusive as e:
                 kani.log("config %s inconclusive: %s" % (cfg, e))
                 fatal.append("%s: %s" % (cfg, e))
                 for s in ss:
                     results[s["name"]] = dict(harness=s["name"], status="inconclusive", reason=str(e)[:400], failed=[], covers={},
                                               checks=0, solver_s=None, wall_s=0.0, role=s.get("role", s["name"]), config=cfg)
+        if all_metas:
+            rs = kani.run_all(all_metas, all_run, workdir, a.jobs)
+            for s in kspecs:
+                if s["name"] in rs:
+                    r = rs[s["name"]]
+                    r["role"] = s.get("role", s["name"])
+                    r["config"] = s["config"]
+                    results[s["name"]] = r
         if zspecs:
             import zengine
             for s in zspecs:
